@@ -32,7 +32,7 @@ logging.getLogger("aioftp.server").setLevel(logging.CRITICAL)
 logging.getLogger("asyncio").setLevel(logging.CRITICAL)
 
 MAIN_PORT = 2121
-POOL_PORTS = [30001, 30002]
+POOL_PORTS = [30001, 30002, 30003, 30004]
 MAX_CONN = 5
 USER_MAX = 4
 
@@ -234,7 +234,7 @@ class Run:
         cur = asyncio.current_task()
         if cur is not None and getattr(cur.get_coro(), "__qualname__", "").startswith("Server."):
             cur = None  # called from inside the server (the spies): its own task counts
-        me = {cur} | self.harness_tasks | {d.task for d in self.data if d.task}
+        me = {cur} | self.harness_tasks | {d.task for d in self.data + getattr(self, "actor_data", []) if d.task}
         tasks = []
         for t in asyncio.all_tasks():
             if t in me or t.done():
@@ -430,7 +430,6 @@ class Run:
             f = await aioftp.MemoryPathIO._open(pio, p, "wb")
             f.write(pattern(size, i))
         CTL.handles.clear()
-        CTL.active = True
         self.payload = pattern(case.get("payload", 64), 5)
         self.other_transports = set()
         for _ in range(case.get("sessions", 0)):
@@ -439,6 +438,20 @@ class Run:
             await o.send("USER anonymous")
             self.others.append(o)
             self.other_transports.add(o.writer.transport)
+        # other ACTIVE sessions: each performs its own steps (a transfer held by the peer itself: no gates) and stays there
+        self.actor_data = []
+        for steps in case.get("actors", []):
+            saved = (self.raw, self.data, self.port, self.log)
+            self.raw = await simnet.Raw.connect(net, MAIN_PORT)
+            await self.raw.drain_replies()
+            self.data, self.port, self.log = [], None, []
+            for st in steps:
+                await self.do_step(st)
+            self.others.append(self.raw)
+            self.actor_data += self.data
+            self.raw, self.data, self.port, self.log = saved
+        self.other_transports = set(net.open_transports("client"))
+        CTL.active = True  # gates and call counts concern the session under test only
         self.other_keys = set(srv.connections.keys())
         self.bind_log_base = len(net.bind_log)
         self.baseline = self.ledger()
@@ -555,7 +568,7 @@ class Run:
             CTL.release(None)
             if bg:
                 self.bind_ev.set()
-            for d in self.data:
+            for d in self.data + self.actor_data:
                 if d.task:
                     d.task.cancel()
             try:
